@@ -476,6 +476,39 @@ structure OpRow where
   dtypeOut  : String           -- "" = none
 deriving Repr, DecidableEq
 
+/-- WHAT each documented function of operations.py computes — written from the documentation
+    (docs/basic_interface.rst "sum_union … the sum over the union of the maps", etc.), NOT
+    extracted from the code: (numpy ufunc folded, over the union?, integer maps only?,
+    seeded with the first map?, float64 result?).  The generated table must agree with it
+    (`C06.opsTable_spec`), and the model folds with THESE fields, so a wrapper that passes
+    another ufunc or flag shows up as a concrete failing input. -/
+def opSpec : String → Option (String × Bool × Bool × Bool × Bool)
+  | "sum_union" => some ("add", true, false, false, false)
+  | "sum_intersection" => some ("add", false, false, false, false)
+  | "product_union" => some ("multiply", true, false, false, false)
+  | "product_intersection" => some ("multiply", false, false, false, false)
+  | "or_union" => some ("bitwise_or", true, true, false, false)
+  | "or_intersection" => some ("bitwise_or", false, true, false, false)
+  | "and_union" => some ("bitwise_and", true, true, false, false)
+  | "and_intersection" => some ("bitwise_and", false, true, false, false)
+  | "xor_union" => some ("bitwise_xor", true, true, false, false)
+  | "xor_intersection" => some ("bitwise_xor", false, true, false, false)
+  | "max_union" => some ("fmax", true, false, false, false)
+  | "max_intersection" => some ("fmax", false, false, false, false)
+  | "min_union" => some ("fmin", true, false, false, false)
+  | "min_intersection" => some ("fmin", false, false, false, false)
+  | "divide_intersection" => some ("divide", false, false, true, true)
+  | "floor_divide_intersection" => some ("floor_divide", false, true, true, false)
+  | _ => none
+
+/-- the row the model folds with: semantic fields from `opSpec`, the rest (filler, dtype after
+    adding the filler) from the row extracted from the code -/
+def OpRow.withSpec (r : OpRow) : OpRow :=
+  match opSpec r.name with
+  | some (u, un, io, ff, fo) =>
+    { r with ufunc := u, union := un, intOnly := io, fillFirst := ff, dtypeOut := if fo then "f8" else "" }
+  | none => r
+
 /-- numpy ufunc on two cells of dtype `dt` -/
 def ufuncCell (ufunc : String) (dt : DT) (x w : Val) : Val :=
   match ufunc with
